@@ -784,6 +784,8 @@ func runC15(c *Ctx) {
 	shrinkSrv := pool.Get()
 	defer func() { pool.Put(shrinkSrv); pool.Close() }()
 	nprop, ncorr := 0, 0
+	// render is injective on unit-free types (checked dynamically; not proved): Go text -> model tree
+	seenText := map[string]string{}
 	for i, it := range items {
 		o := obs[i]
 		c.Eval(it.Pos+"|"+it.Text, it.T.depth() >= 1)
@@ -811,6 +813,18 @@ func runC15(c *Ctx) {
 			sp := strings.LastIndex(tail, " ")
 			modelAst = tail[:sp]
 			modelOK = tail[sp+1:] == "0"
+		}
+		if modelOK && !strings.Contains(modelAst, "unit") {
+			key := it.Pos[:3] + "|" + modelText // siglocal resolves names differently: same first letters "sig"
+			astG := strings.ReplaceAll(modelAst, "(named \"Box\"", "(named \"ext.Box\"")
+			astG = strings.ReplaceAll(strings.ReplaceAll(astG, "(named \"Pair\"", "(named \"ext.Pair\""), "(named \"Plain\"", "(named \"ext.Plain\"")
+			if prev, ok := seenText[key]; ok && prev != astG {
+				c.Violate("injective", fmt.Sprintf("two different unit-free types render to the same Go text %q: %s and %s", modelText, prev, astG),
+					map[string]any{"broken": "render injectivity on unit-free types (model level)", "go": modelText, "a": prev, "b": astG}, true)
+			} else {
+				seenText[key] = astG
+			}
+			c.Count("render_injectivity_checked")
 		}
 		bad := c15Property(it, o)
 		disagree := ""
